@@ -103,6 +103,14 @@ pub(crate) mod verif_u {
         ep.pending_checksums.contains_key(&frame)
     }
 
+    pub(crate) fn last_recv_ms<T: Config>(ep: &UdpProtocol<T>) -> u64 {
+        ep.last_recv_time.as_ms()
+    }
+    /// any message of the kinds that carry no heap data, with any magic
+    pub(crate) fn any_message() -> Message {
+        Message { header: MessageHeader { magic: kani::any() }, body: any_body() }
+    }
+
     fn msg(magic: u16, body: MessageBody) -> Message {
         Message { header: MessageHeader { magic }, body }
     }
